@@ -92,6 +92,10 @@ func (rp *replayer) replay(path, pkg string) replayVerdict {
 	s := string(out)
 	idx := strings.Index(s, "VERIF-REPLAY-RESULT: ")
 	if idx < 0 {
+		// the test binary's own deadline: the run did not finish (a hang, not a death)
+		if strings.Contains(s, "panic: test timed out after") {
+			return replayVerdict{Reproduced: true, Summary: "native run did not finish within 60 s (hang)", Raw: tail(s, 2000)}
+		}
 		// process died (fatal error, os.Exit, stack overflow)
 		if err != nil {
 			return replayVerdict{Reproduced: true, Summary: "native process died: " + firstLine(tail(s, 400)), Raw: tail(s, 4000)}
